@@ -46,6 +46,8 @@ Step(e) ==
       [] e.ev = "rd" -> Read(e) /\ UNCHANGED <<st, imd, cfg>>
       \* the initial value of the mouse counters is not part of the statement: learnt from the first reads
       [] e.ev = "learn" -> st' = [st EXCEPT !.wheel = e.buttons \div 16, !.mx = e.x, !.my = e.y] /\ UNCHANGED <<imd, cfg, bad>>
+      \* host operations that are no input events (snapshot loads, sound switches) leave every source holding what it held
+      [] e.ev = "hostop" -> UNCHANGED <<st, imd, cfg, bad>>
       [] OTHER -> st' = StEvent(st, e) /\ imd' = ImEvent(imd, e, Deviations) /\ UNCHANGED <<cfg, bad>>
 
 TraceNext == l <= Len(Rec) /\ Step(Rec[l]) /\ l' = l + 1
